@@ -160,7 +160,7 @@ func (c *vxClock) Now() time.Time {
 	} else if len(c.seen) > 0 {
 		t = c.seen[len(c.seen)-1]
 	} else {
-		t = time.Unix(0, 0).UTC()
+		t = time.Date(2030, 1, 1, 0, 0, 0, 0, time.UTC)
 	}
 	c.seen = append(c.seen, t)
 	return t
